@@ -17,6 +17,8 @@ import (
 	"sync"
 	"time"
 
+	"google.golang.org/protobuf/cmd/protoc-gen-go/internal_gengo"
+	"google.golang.org/protobuf/compiler/protogen"
 	vh "google.golang.org/protobuf/internal/zz_verif_vh"
 	"google.golang.org/protobuf/proto"
 	"google.golang.org/protobuf/reflect/protodesc"
@@ -196,10 +198,17 @@ func mkReq(files []*descriptorpb.FileDescriptorProto, toGen []string, param stri
 }
 
 // checkRequest runs all variants of (br, param) and reports differences.
-func (e *env) checkRequest(c *vh.Ctx, br *baseReq, param string, r *rand.Rand, singles bool) {
+func (e *env) checkRequest(c *vh.Ctx, br *baseReq, param string, r *rand.Rand, singles bool, extra int) {
 	base := &job{req: mkReq(br.files, br.toGen, param)}
 	again := &job{req: mkReq(br.files, br.toGen, param)}
 	jobs := []*job{base, again}
+	// further identical runs (map-order dependence shows with probability 1/2 per pair when only two entries differ)
+	var repeats []*job
+	for i := 0; i < extra; i++ {
+		j := &job{req: mkReq(br.files, br.toGen, param)}
+		repeats = append(repeats, j)
+		jobs = append(jobs, j)
+	}
 	type variant struct {
 		what string
 		j    *job
@@ -265,6 +274,49 @@ func (e *env) checkRequest(c *vh.Ctx, br *baseReq, param string, r *rand.Rand, s
 		}
 		c.Check(false, "two runs of the same request in separate processes give different responses", in("same request twice", again, d), "")
 	}
+	for i, j := range repeats {
+		c.Case("", false)
+		if !bytes.Equal(base.out.Raw, j.out.Raw) || base.out.Exit != j.out.Exit {
+			d := "stdout/exit differ"
+			jf := j.out.files()
+			for _, n := range sortedKeys(bf) {
+				if jf[n] != bf[n] {
+					d = n + ": " + firstDiff(bf[n], jf[n])
+					break
+				}
+			}
+			c.Check(false, "two runs of the same request in separate processes give different responses", in(fmt.Sprintf("same request, process %d", i+3), j, d), "")
+			break
+		}
+	}
+	// 1b. the generator run in-process (same tree, linked into the harness; three times for random schemas): Go randomises map iteration per
+	// loop, so order dependence also shows without a new process
+	if base.out.Exit == "" && base.out.Resp.Error == nil {
+		nin := 1
+		if strings.HasPrefix(br.label, "random-") || br.label == "replay" {
+			nin = 3
+		}
+		for i := 0; i < nin; i++ {
+			c.Case("", false)
+			pf, perr := generateFromRequestBytes(base.raw)
+			if perr != "" {
+				c.Check(false, "in-process generation fails where the plugin subprocess succeeds", in("in-process run", nil, head(perr, 300)), "")
+				break
+			}
+			bad := false
+			for _, n := range sortedKeys(bf) {
+				if pf[n] != bf[n] {
+					c.Check(false, "in-process generation differs from the plugin subprocess (same request)", in(fmt.Sprintf("in-process run %d", i+1), nil, n+": "+firstDiff(bf[n], pf[n])), "")
+					bad = true
+					break
+				}
+			}
+			if bad {
+				break
+			}
+			c.Hist("in-process-run:identical")
+		}
+	}
 	// 2. variants: per generated file name
 	cmp := func(v variant, subset bool) {
 		c.Case("", false)
@@ -309,6 +361,37 @@ func (e *env) checkRequest(c *vh.Ctx, br *baseReq, param string, r *rand.Rand, s
 			}
 		}
 	}
+}
+
+// generateFromRequestBytes runs protogen + internal_gengo in-process on a serialized request.
+func generateFromRequestBytes(raw []byte) (files map[string]string, errText string) {
+	defer func() {
+		if e := recover(); e != nil {
+			errText = fmt.Sprintf("panic: %v", e)
+		}
+	}()
+	req := &pluginpb.CodeGeneratorRequest{}
+	if err := proto.Unmarshal(raw, req); err != nil {
+		return nil, err.Error()
+	}
+	gen, err := protogen.Options{}.New(req)
+	if err != nil {
+		return nil, err.Error()
+	}
+	for _, f := range gen.Files {
+		if f.Generate {
+			internal_gengo.GenerateFile(gen, f)
+		}
+	}
+	resp := gen.Response()
+	if resp.Error != nil {
+		return nil, resp.GetError()
+	}
+	files = map[string]string{}
+	for _, rf := range resp.File {
+		files[rf.GetName()] = rf.GetContent()
+	}
+	return files, ""
 }
 
 // randomRequests builds requests from random valid schemas (the C41 generator): one package of three files.
@@ -370,7 +453,7 @@ func runC40(c *vh.Ctx) {
 			continue
 		}
 		br := &baseReq{label: "replay", files: req.ProtoFile, toGen: req.FileToGenerate}
-		e.checkRequest(c, br, req.GetParameter(), r, true)
+		e.checkRequest(c, br, req.GetParameter(), r, true, 6)
 	}
 	if c.Replay != "" {
 		return
@@ -437,7 +520,12 @@ func runC40(c *vh.Ctx) {
 		}
 		for pi, p := range combos {
 			// single-file requests for every parameter string in the thorough tier, for the first one otherwise
-			e.checkRequest(c, br, p, r, c.Thorough() || pi == 0)
+			// random schemas carry map-valued custom options: more identical runs for their first parameter strings
+			extra := 0
+			if strings.HasPrefix(br.label, "random-") && pi < 2 {
+				extra = 6
+			}
+			e.checkRequest(c, br, p, r, c.Thorough() || pi == 0, extra)
 			if c.Failed() {
 				return
 			}
